@@ -36,6 +36,34 @@ SEEDS = {
               ["./api/rpc/...", "./libs/authtoken/..."], ["-run", "TestC19_ExpiredTokenGrantsNothing_EvenIfUsedBeforeExpiry", "./api/rpc/"]),
     "C19-2": ("C19/change2", "C19", [("demo/libs_authtoken/c19_payload_alias_test.go", "libs/authtoken/c19_payload_alias_test.go")],
               ["./api/rpc/...", "./libs/authtoken/..."], ["-run", "TestC19_VerifiedPermissionsAreNotSharedBetweenTokens", "./libs/authtoken/"]),
+    "C02-1": ("C02/change1", "C02", [("demo/namespace_data_seed_c02_1_test.go", "share/shwap/namespace_data_seed_c02_1_test.go")],
+              ["./share/shwap/", "./share/eds/"], ["-run", "TestSeedC02NamespaceDataVerifyChecksEveryRow", "./share/shwap/"]),
+    "C02-2": ("C02/change2", "C02", [("demo/row_namespace_data_seed_c02_2_test.go", "share/shwap/row_namespace_data_seed_c02_2_test.go")],
+              ["./share/shwap/", "./share/eds/"], ["-run", "TestSeedC02RowNamespaceDataRejectsPartialRange", "./share/shwap/"]),
+    "C05-1": ("C05/change1", "C05", [("demo/c05_change1_demo_test.go", "store/c05_change1_demo_test.go")],
+              ["./share/eds/", "./store/..."], ["-run", "TestC05Change1_RowHalfAfterSample", "./store/"]),
+    "C05-2": ("C05/change2", "C05", [("demo/c05_change2_demo_test.go", "store/file/c05_change2_demo_test.go")],
+              ["./store/..."], ["-run", "TestC05Change2_NamespacePaddingLayout", "./store/file/"]),
+    "C07-1": ("C07/change1", "C07", [("demo/c07_prealloc_crash_test.go", "store/c07_prealloc_crash_test.go")],
+              ["./store/..."], ["-run", "TestC07aCrashDuringQ4Write", "./store/"]),
+    "C07-2": ("C07/change2", "C07", [("demo/c07_reput_after_crash_test.go", "store/c07_reput_after_crash_test.go")],
+              ["./store/..."], ["-run", "TestC07bRePutAfterCrashDuringODSWrite", "./store/"]),
+    "C12-1": ("C12/change1", "C12", [("demo/c12_empty_commitment_proof_test.go", "blob/c12_empty_commitment_proof_test.go")],
+              ["./blob/"], ["-run", "TestC12EmptyCommitmentProofIsRejected", "./blob/"]),
+    "C12-2": ("C12/change2", "C12", [("demo/c12_range_reslice_test.go", "share/shwap/c12_range_reslice_test.go")],
+              ["./share/shwap/", "./share/eds/"], ["-run", "TestC12RangeProofForShiftedRangeIsRejected", "./share/shwap/"]),
+    "C15-1": ("C15/change1", "C15", [("demo/seeded_c15_change1_test.go", "share/availability/full/seeded_c15_change1_test.go")],
+              ["./share/availability/full/"], ["-run", "TestSeededC15", "./share/availability/full/"]),
+    "C15-2": ("C15/change2", "C15", [("demo/seeded_c15_change2_test.go", "core/seeded_c15_change2_test.go")],
+              ["./core/"], ["-run", "TestSeededC15_StoreFailureThenRetryFromSecondSource", "./core/"]),
+    "C16-1": ("C16/change1", "C16", [("demo/c16_change1_demo_test.go", "header/headertest/c16_change1_demo_test.go")],
+              ["./header/..."], ["-run", "TestC16Change1", "./header/headertest/"]),
+    "C16-2": ("C16/change2", "C16", [("demo/c16_change2_demo_test.go", "header/headertest/c16_change2_demo_test.go")],
+              ["./header/..."], ["-run", "TestC16Change2", "./header/headertest/"]),
+    "C18-1": ("C18/change1", "C18", [("demo/seeded_c18_v0_wire_range_test.go", "share/shwap/seeded_c18_v0_wire_range_test.go")],
+              ["./share/shwap/"], ["-run", "TestSeededC18RangeIDV0SurvivesWireOrIsRefused", "./share/shwap/"]),
+    "C18-2": ("C18/change2", "C18", [("demo/seeded_c18_range_stream_test.go", "share/shwap/seeded_c18_range_stream_test.go")],
+              ["./share/shwap/", "./share/shwap/p2p/shrex/..."], ["-run", "TestSeededC18RangeDataSurvivesStream", "./share/shwap/"]),
     "C06-1": ("C06/change1", "C06", [("demo/sample_unverified_demo_test.go", "share/shwap/p2p/bitswap/sample_unverified_demo_test.go")],
               ["./share/shwap/p2p/bitswap/"], ["-run", "TestDemo_GetSamples", "./share/shwap/p2p/bitswap/"]),
     "C06-2": ("C06/change2", "C06", [("demo/eds_retry_demo_test.go", "share/shwap/p2p/shrex/shrex_getter/eds_retry_demo_test.go")],
